@@ -33,6 +33,7 @@ ASSUMPTIONS = [
 ]
 BUDGET = {"quick": (6000, 45), "thorough": (200000, 500)}
 REQUIRED_COUNTERS = ["configurations_executed", "instructions_executed",
+                     "context_insertions",
                      "stack_writes_shadowed"]
 
 ABIS = {
@@ -78,7 +79,20 @@ def canon(abi, name):
     return name
 
 
+CTX_SHAPES = ["plain-leaf", "syscall-only", "calls", "no-function",
+              "calls-in-other-block"]
+
+
 def gen_case(rng, tier, index):
+    if index % 8 == 7:
+        # through RewritingContext: is the enclosing function possibly a
+        # leaf?  (x86-64 ELF, the ABI with a red zone)
+        return {"kind": "ctx", "shape": rng.choice(CTX_SHAPES),
+                "clobbers": rng.sample(["rax", "rcx", "rdx", "rsi", "r8"],
+                                       rng.randrange(0, 3)),
+                "flags": rng.random() < 0.5, "align": rng.random() < 0.4,
+                "scratch": rng.choice([0, 0, 1]),
+                "seed": rng.randrange(1 << 30)}
     abi = rng.choice(list(ABIS))
     pool = POOL[abi]
     allr = ALLREGS[abi]
@@ -136,7 +150,89 @@ def assemble(isa_g, fmt, snippets):
     return bytes(a.finalize().text_section.data)
 
 
+def run_ctx(c):
+    """the red-zone decision as RewritingContext makes it"""
+    import gtirb_functions
+    from gtirb_rewriting import Constraints, Patch, RewritingContext
+    from .. import irbuild, vocab
+    viol = []
+    ctr = {"context_insertions": 0, "instructions_executed": 0}
+    shape = c["shape"]
+
+    def blk(i, labels, items):
+        return {"id": i, "code": True, "labels": labels, "elabels": [],
+                "items": items}
+    blocks = {
+        "plain-leaf": [blk(0, ["f"], [{"k": "nop"}, {"k": "ret"}])],
+        "syscall-only": [blk(0, ["f"], [{"k": "nop"}, {"k": "syscall"}]),
+                         blk(1, ["f1"], [{"k": "ret"}])],
+        "calls": [blk(0, ["f"], [{"k": "nop"}, {"k": "call", "t": "g"}]),
+                  blk(1, ["f1"], [{"k": "ret"}])],
+        "calls-in-other-block": [
+            blk(0, ["f"], [{"k": "nop"}, {"k": "jne", "t": "f1"}]),
+            blk(1, ["f2"], [{"k": "call", "t": "g"}]),
+            blk(3, ["f1"], [{"k": "ret"}])],
+        "no-function": [blk(0, ["f"], [{"k": "nop"}, {"k": "ret"}])],
+    }[shape]
+    blocks = blocks + [blk(9, ["g"], [{"k": "ret"}])]
+    fblocks = [b["id"] for b in blocks if b["id"] != 9]
+    funcs = [{"name": "g", "blocks": [9], "entries": [9]}]
+    if shape != "no-function":
+        funcs.append({"name": "f", "blocks": fblocks, "entries": [0]})
+    case = {"isa": "x64", "fmt": "elf", "pie": False, "externs": [],
+            "entry": None, "edits": [], "funcs": funcs,
+            "secs": [{"name": ".text", "exec": True,
+                      "ivs": [{"gap": 0, "blocks": blocks}]}]}
+    bu, lst = irbuild.build(case, random.Random("uuid:0"))
+    m = bu.module
+    before = len(bu.intervals[0][0].contents)
+    marker = vocab.asm_text("x64", "mark", imm=0x5A5A01)
+
+    class P(Patch):
+        def __init__(self):
+            super().__init__(Constraints(
+                clobbers_flags=c["flags"],
+                clobbers_registers=set(c["clobbers"]),
+                scratch_registers=c["scratch"], align_stack=c["align"]))
+
+        def get_asm(self, ctx):
+            return marker + "\n"
+    functions = gtirb_functions.Function.build_functions(m)
+    ctx = RewritingContext(m, functions)
+    ctx.insert_at(bu.blocks[0], 0, P())
+    ctx.apply()
+    bi = bu.intervals[0][0]
+    ins = bytes(bi.contents)[:len(bi.contents) - before]
+    may_be_leaf = shape in ("plain-leaf", "syscall-only", "no-function")
+    rng = random.Random(c["seed"])
+    names = [canon("x64-elf", r) for r in ALLREGS["x64-elf"]] + ["rbp"]
+    for res in (0, 8):
+        init = {n: rng.getrandbits(64) for n in names}
+        sp0 = 0x7FFF0000 + res
+        mc = emu.Machine("x64", init, sp0, rng.getrandbits(12),
+                         red_zone=RED["x64-elf"], leaf=may_be_leaf)
+        try:
+            mc.phase = "prologue"
+            mc.run(ins)
+        except emu.Unsupported as e:
+            return {"sig": None, "violations": viol, "counters": ctr,
+                    "inconclusive": f"unsupported-instruction:{e}"[:200]}
+        ctr["instructions_executed"] += mc.ninstr
+        for key, msg in mc.problems:
+            viol.append({"key": f"context:{key}:{shape}", "msg": msg})
+        if mc.sp != sp0:
+            viol.append({"key": "context:sp-not-restored",
+                         "msg": f"{mc.sp - sp0:+d}"})
+    ctr["context_insertions"] = 1
+    pushes = bool(c["clobbers"] or c["flags"] or c["align"] or c["scratch"])
+    return {"sig": f"ctx:{shape}:{len(c['clobbers'])}{int(c['flags'])}"
+                   f"{int(c['align'])}{c['scratch']}:{int(pushes)}",
+            "violations": viol, "counters": ctr}
+
+
 def run_case(c):
+    if c.get("kind") == "ctx":
+        return run_ctx(c)
     from gtirb_rewriting.abi import ABI
     from gtirb_rewriting.assembly import Constraints
     viol = []
